@@ -17,11 +17,11 @@ META = {
 DEV = "DEV_FoldIntModFloatIsZero"
 
 
-def fold_cfg(dev, emit, deep=False):
-    return vlib.cfg_text(spec="Spec", constants={"DEV_FoldIntModFloatIsZero": dev, "EmitCases": emit, "Deep": deep,
+def fold_cfg(dev, emit, deep=False, family="const"):
+    return vlib.cfg_text(spec="Spec", constants={"DEV_FoldIntModFloatIsZero": dev, "EmitCases": emit, "Deep": deep, "Family": family,
                                                   "DEV_OtherwiseFlagIsGlobal": False, "DEV_MemoKeyedByValueOnly": False,
                                                   "DEV_MemoCachesFailure": False, "YearOpt": False},
-                         invariants=["FoldPreservesValue", "RejectsOnlyZeroDivisor", "FoldsToLiteral", "CheckerRejectImpliesFoldReject", "Emit"])
+                         invariants=["FoldPreservesValue", "RejectsOnlyZeroDivisor", "FoldsToLiteral", "KeepsNonConstant", "CheckerRejectImpliesFoldReject", "Emit"])
 
 
 def lit(e):
@@ -42,7 +42,7 @@ def explain_case(model_dev, c, rec):
     for mode in ("full", "min"):
         r = rec[mode]
         fr = r["fold"]
-        if fr["kind"] in ("parse_error", "panic", "other"):
+        if fr["kind"] in ("parse_error", "panic") or (fr["kind"] == "other" and not c.get("open")):
             bad.append("%s: opt.Optimise on %s: %s %s" % (mode, r["expr"], fr["kind"], fr.get("msg", "")))
             continue
         if f["ovf"]:
@@ -50,7 +50,10 @@ def explain_case(model_dev, c, rec):
         if f["rej"] != (fr["kind"] == "rejected"):
             bad.append("%s: %s: optimiser %s, model %s" % (mode, r["expr"], fr["kind"], "rejects" if f["rej"] else "accepts"))
             continue
-        if not f["rej"]:
+        if not f["rej"] and c.get("open"):
+            if fr["kind"] in ("int", "float") or fr.get("dump") != r.get("modeldump"):
+                bad.append("%s: %s: optimiser produced %s, Fold.tla %s" % (mode, r["expr"], fr.get("dump") or fr["kind"], r.get("modeldump")))
+        elif not f["rej"]:
             k, n, d = lit(f["e"])
             got = fr["i"] if fr["kind"] == "int" else fr["f"]
             if fr["kind"] != k or not close(got, n / d):
@@ -61,7 +64,7 @@ def explain_case(model_dev, c, rec):
             continue
         for which in ("on", "off"):
             x = r[which]
-            if which == "on" and f["rej"]:
+            if which == "on" and (f["rej"] or c.get("ckrejon")):
                 if x["accepted"]:
                     bad.append("%s: %s: optimised compile accepted, model rejects" % (mode, r["expr"]))
                 continue
@@ -97,7 +100,9 @@ def run(ctx):
     devs = [d for d in vlib.open_devs(ctx.prop)]
     if DEV in devs:
         vlib.expect_dev_counterexample(ctx, "Fold", fold_cfg(True, False, False), DEV, timeout=600)
-    recs = [x for x in vlib.run_harness(ctx, fbin, cases=[{"e": c["e"]} for c in ideal], timeout=2400) if "full" in x]
+    ro = vlib.tlc(ctx, "Fold", fold_cfg(False, True, ctx.thorough, "open"), label="Fold-open", timeout=2400, heap="12g")
+    ideal = ideal + ro.cases
+    recs = [x for x in vlib.run_harness(ctx, fbin, cases=[{"e": c["e"], "fe": c["f"]["e"], "open": c.get("open", False)} for c in ideal], timeout=2400) if "full" in x]
     if len(recs) != len(ideal):
         raise vlib.InfraError("fold harness processed %d of %d cases" % (len(recs), len(ideal)))
     ctx.cov["evaluations"] += len(ideal)
@@ -113,7 +118,7 @@ def run(ctx):
         devcases = {}
         if DEV in devs:
             rd = vlib.tlc(ctx, "Fold", vlib.cfg_text(spec="Spec", constants={
-                "DEV_FoldIntModFloatIsZero": True, "EmitCases": True, "Deep": ctx.thorough, "DEV_OtherwiseFlagIsGlobal": False,
+                "DEV_FoldIntModFloatIsZero": True, "EmitCases": True, "Deep": ctx.thorough, "Family": "const", "DEV_OtherwiseFlagIsGlobal": False,
                 "DEV_MemoKeyedByValueOnly": False, "DEV_MemoCachesFailure": False, "YearOpt": False}, invariants=["Emit"]),
                 label="Fold-dev-emit", timeout=1200, heap="12g")
             devcases = {json.dumps(c["e"], sort_keys=True): c for c in rd.cases}
@@ -126,7 +131,7 @@ def run(ctx):
                 if not dbad:
                     nexp += 1
                     continue
-            again = [x for x in vlib.run_harness(ctx, fbin, cases=[{"e": c["e"]}]) if "full" in x][0]
+            again = [x for x in vlib.run_harness(ctx, fbin, cases=[{"e": c["e"], "fe": c["f"]["e"], "open": c.get("open", False)}]) if "full" in x][0]
             bad2 = explain_case(False, c, again)
             if bad2:
                 ctx.violation({"expr": rec["min"]["expr"], "ast": c["e"], "model": c["f"], "reference_value": c["v"], "real": again, "mismatches": bad2[:4]},
